@@ -65,19 +65,25 @@ structure Doc where
 def Def.isExecutable : Def → Bool | .ts .. => false | _ => true
 def Def.isOp : Def → Bool | .op .. => true | _ => false
 def Def.isFrag : Def → Bool | .frag .. => true | _ => false
+/-- an operation definition without a name -/
+def Def.isAnonOp : Def → Bool | .op _ none .. => true | _ => false
 
-/-- which of the proposed fixes (proposed_fixes/C06-V*.patch) the tree under test contains;
-    the harness detects them by probing and the model follows the code that exists -/
+/-- Variants of six places of the validator. `true` (the default) = the code of /repo HEAD (fix commits
+    160f78c, 84a8250, 05e5ea5, 0368e7b, 874f2dd); `false` = the code before that fix, kept so that the
+    refutation theorems of Props/C06_witness.lean can be stated about the unfixed variant (ledger V3, V4, V7,
+    V9, V10, V11). The harness probes the tree under test and passes what it finds. -/
 structure Fixes where
-  v3 : Bool := false
-  v4 : Bool := false
-  v7 : Bool := false
-  v9 : Bool := false
-  v10 : Bool := false
-  v11 : Bool := false
+  v3 : Bool := true
+  v4 : Bool := true
+  v7 : Bool := true
+  v9 : Bool := true
+  v10 : Bool := true
+  v11 : Bool := true
   deriving Repr, Inhabited, DecidableEq
 
-def Fixes.all : Fixes := ⟨true, true, true, true, true, true⟩
+def Fixes.all : Fixes := {}
+/-- the validator as it was in the snapshot 2541ded -/
+def Fixes.unfixed : Fixes := ⟨false, false, false, false, false, false⟩
 
 /-! association lists with `OrderedDict` behaviour (update in place, new keys at the end) -/
 abbrev AL (α : Type) := List (String × α)
